@@ -890,6 +890,12 @@ class Interp:
             return -v
         if isinstance(node.op, ast.UAdd):
             return v
+        if isinstance(node.op, ast.Invert) and isinstance(v, NDArr) and getattr(v.store, "is_bool", False):
+            # `~b` on a numpy BOOL array (result of .any(axis=1)): element-wise logical not, again a bool array
+            rd = v.reader()
+            out = new_array(v.shape, lambda *i: 1 - as_int_term(rd(*i)), "not")
+            out.store.is_bool = True
+            return out
         raise Undecided("unary " + type(node.op).__name__)
 
     def e_BoolOp(self, node):
